@@ -50,13 +50,19 @@ class Run:
 
     # ------------------------------------------------------------ TLC stages
     def mc(self, module, name, constants=None, invariants=(), properties=(), constraint=None, view=None,
-           extra=(), workers=None, timeout=3600, count=True, spec="Spec"):
+           extra=(), workers=None, timeout=3600, count=True, spec="Spec", expect_violation=None):
+        """Model-check; the invariants must hold.  expect_violation = name of an invariant that TLC must find violated
+        (a deviation model: the run documents that the recorded deviation breaks the obligation)."""
         cfg = os.path.join(self.scratch, f"{module}-{name}.cfg")
         tlc.write_cfg(cfg, spec=spec, constants=constants, invariants=invariants, properties=properties,
                       constraint=constraint, view=view)
         r = tlc.run(module, cfg, self.scratch, workers=workers or self.workers, extra=extra, timeout=timeout,
                     tag=f"{module}-{name}")
-        if r["violated"]:
+        if expect_violation:
+            if r["violated"] != expect_violation:
+                raise tlc.MachineryError(f"the deviation model ({module}, {name}) was expected to violate {expect_violation}, "
+                                         f"TLC reports {r['violated']}")
+        elif r["violated"]:
             raise tlc.MachineryError(f"the specification violates its own invariant {r['violated']} "
                                      f"({module}, {name}):\n" + r["out"][-4000:])
         if count:
@@ -64,6 +70,7 @@ class Run:
             self.transitions += r["transitions"]
         self.mc_runs.append({"module": module, "config": name, "constants": constants or {},
                              "invariants": list(invariants), "properties": list(properties),
+                             **({"expected_violation": expect_violation} if expect_violation else {}),
                              "states": r["states"], "transitions": r["transitions"],
                              "seconds": round(r["seconds"], 1), "mode": "simulate" if "-simulate" in extra else "bfs"})
         return r
@@ -115,15 +122,22 @@ class Run:
         for tr in traces:
             s = {k: v for k, v in tr.items() if not k.startswith("_") and k not in strip}
             slim.append(s)
-        consts = {"AndLeftTrueNeedsFalseSet": True} if module == "TraceQuery" else None     # Layer B switch: the current code
+        consts = {"AndLeftTrueNeedsFalseSet": True, "PreferWildcardB3": True, "B3Judge": "obs"} if module == "TraceQuery" else None     # Layer B switch: the current code
         rej, n = tlc.validate(module, slim, self.scratch, shards=self.workers, constants=consts)
         if count:
             self.traces_validated += n
         self.extra["validate_s"] = round(self.extra.get("validate_s", 0) + time.time() - t, 1)
         by = {}
+        tr_by_id = None
         for r in rej:
             if r["clause"].startswith("drift."):      # Layer B disagrees with the code: model drift, not a verdict
                 self.drift.append(r)
+                if os.environ.get("VERIF_KEEP_DRIFT") and len(self.drift) <= 40:     # for working on the model
+                    tr_by_id = tr_by_id or {t["id"]: t for t in traces}
+                    d = os.path.join(VERIF, "replays", self.prop)
+                    os.makedirs(d, exist_ok=True)
+                    with open(os.path.join(d, f"drift-{r['id']}.json"), "w") as f:
+                        json.dump({"rejection": r, "trace": tr_by_id[r["id"]]}, f, indent=1)
                 continue
             by.setdefault(r["id"], []).append(r)
         return by
